@@ -17,6 +17,9 @@ from .fs import fsDev, fsDir, fsFifo, fsFile, fsSymlink
 
 _unique_inode = count(2**32).__next__
 
+# same limit the linux kernel applies to a path walk (MAXSYMLINKS)
+_MAX_SYMLINK_PASSES = 40
+
 known_compressors = {
     "bz2": tarfile.TarFile.bz2open,
     "gz": tarfile.TarFile.gzopen,
@@ -228,15 +231,23 @@ def convert_archive(archive):
     # ok, syms are correct.  now we get the rest.
     # we shift the readds into a separate list so that we don't reinspect
     # them on later runs; this slightly reduces the working set.
-    additions = []
-    for x in syms:
-        affected = t.child_nodes(x.location)
-        if not affected:
-            continue
-        t.difference_update(affected)
-        additions.extend(affected.change_offset(x.location, x.resolved_target))
+    # An entry can sit below a chain of symlinks (a -> b -> c), or below a symlink whose
+    # target lies under yet another symlink; repeat until nothing moves anymore, the way
+    # the kernel would walk the path on a live merge.
+    for _ in range(_MAX_SYMLINK_PASSES):
+        additions = []
+        for x in syms:
+            affected = t.child_nodes(x.location)
+            if not affected:
+                continue
+            t.difference_update(affected)
+            additions.extend(affected.change_offset(x.location, x.resolved_target))
+        if not additions:
+            break
+        t.update(additions)
+    else:
+        raise ValueError("too many levels of symbolic links while resolving tarball contents")
 
-    t.update(additions)
     t.add_missing_directories()
 
     # finally... an insane sort.
